@@ -23,7 +23,7 @@ Fixpoint name_eqb (a b : name) : bool :=
 
 Definition is_nil (s : name) : bool := match s with [] => true | _ => false end.
 
-Fixpoint has_prefix (s p : name) : bool :=          (* strings.HasPrefix(s, p) *)
+Fixpoint has_prefix (s p : name) {struct p} : bool :=          (* strings.HasPrefix(s, p) *)
   match p, s with
   | [], _ => true
   | y :: p', x :: s' => N.eqb x y && has_prefix s' p'
